@@ -587,6 +587,33 @@ def leaf_kind_cases():
     return out
 
 
+_PARAM_TYPES = [
+    # (tag, text placed before the structure, parameter type)
+    ("external-integer", "external Ext:\n  [is_integer: true]\n  [addressable_unit_size: 8]\n", "Ext:8"),
+    ("external-integer-bits", "external Ext:\n  [is_integer: true]\n  [addressable_unit_size: 1]\n", "Ext:8"),
+    ("external-integer-unsized", "external Ext:\n  [is_integer: true]\n  [addressable_unit_size: 8]\n", "Ext"),
+    ("external-not-integer", "external Ext:\n  [addressable_unit_size: 8]\n", "Ext:8"),
+    ("uint", "", "UInt:8"), ("uint-64", "", "UInt:64"), ("uint-65", "", "UInt:65"), ("uint-zero", "", "UInt:0"),
+    ("uint-unsized", "", "UInt"), ("int", "", "Int:16"), ("bcd", "", "Bcd:8"), ("flag", "", "Flag"), ("float", "", "Float:32"),
+    ("enum", "enum Kk:\n  KA = 1\n", "Kk"), ("struct", "struct Sub:\n  0 [+1]  UInt  q\n", "Sub"), ("array", "", "UInt:8[2]"),
+]
+_PARAM_USES = ["", "  let y = p\n", "  let y = p + 1\n", "  1 [+p]  UInt:8[]  z\n", "  if p == 1:\n    1 [+1]  UInt  c\n",
+               "  1 [+1]  UInt  r\n    [requires: this < p]\n", "  let y = $max(p, 2) * 3\n"]
+
+
+def param_kind_cases():
+    """Seed-independent: a runtime parameter of every kind of type (user-defined externals, integers of every width,
+    Flag, Float, enum, structure, array), unused and used at several expression positions, with and without a
+    structure that instantiates it."""
+    out = []
+    for tag, pre, ty in _PARAM_TYPES:
+        for ui, use in enumerate(_PARAM_USES):
+            body = '[$default byte_order: "LittleEndian"]\n' + pre + "struct Bar(p: %s):\n  0 [+1]  UInt  x\n" % ty + use
+            out.append(("param-kind:%s:%d" % (tag, ui), body))
+            out.append(("param-kind:%s:%d:used" % (tag, ui), body + "struct Use:\n  0 [+1]  UInt  n\n  1 [+8]  Bar(n)  b\n"))
+    return out
+
+
 _ATTR_NAMES = ["byte_order", "requires", "fixed_size_in_bits", "maximum_bits", "is_signed", "is_integer", "addressable_unit_size",
                "static_requirements", "text_output", "enum_case", "namespace", "expected_back_ends", "can_hold_any_value", "nope"]
 _ATTR_VALUES = ['"text"', "4", "true", "Ee.AA", '"kCamelCase"', '""', "x"]
